@@ -87,6 +87,15 @@ func execSeq(t *testing.T, plan Plan, src kernel.Source, opts seqOpts) Result {
 					e.violate(i, "pool_misuse", "headers", "after %s rend had misused a shared pool of protocol objects: %s", st, strings.Join(faults, "; "))
 				}
 			}
+			// standing monitor of the simulated backends: with well-formed client input and no
+			// fault, everything rend sends to a backend is a well-formed request
+			if res.V == nil {
+				for _, tr := range []*kernel.Tier{e.d.L1, e.d.L2} {
+					if tr != nil && len(tr.Fake.Malformed) > 0 {
+						e.violate(i, "backend_malformed", tr.Name, "after %s the %s backend had received a malformed request from rend: %s", st, tr.Name, tr.Fake.Malformed[0])
+					}
+				}
+			}
 		}
 	})
 }
@@ -100,7 +109,13 @@ func (e *seqEnv) step(i int, st Step) {
 	case st.Evict != nil:
 		keys := st.Evict
 		if len(keys) == 1 && keys[0] == "*" {
-			keys = e.d.L1.Fake.Store.LiveKeys()
+			// everything: the backend's own entries (for a chunked L1 these are metadata and
+			// chunk entries, not client keys)
+			st1 := e.d.L1.Fake.Store
+			for _, bk := range st1.LiveKeys() {
+				st1.Evict(bk)
+			}
+			keys = nil
 		}
 		for _, k := range keys {
 			e.evictL1(k)
